@@ -108,6 +108,14 @@ func vC10cfgInstall() func() {
 	}
 }
 
+// a slot holds what was configured; a slot left alone is only acceptable for "nothing configured"
+func vC10cfgSlot(set bool, got, want *swarm.BlackHoleSuccessCounter) bool {
+	if set {
+		return got == want
+	}
+	return want == nil
+}
+
 func VerifC10dSwarmWiring() {
 	defer vC10cfgInstall()()
 	saved := pnet.ForcePrivateNetwork
@@ -145,7 +153,7 @@ func VerifC10dSwarmWiring() {
 	main := vC10cfgRec
 	vAssert(main.gater == gater && main.gaterSet == (gater != nil), "the node's swarm is built with exactly the configured connection gater")
 	vAssert(main.rcmgr == rcmgr && main.rcmgrSet == (rcmgr != nil), "the node's swarm is built with the configured resource manager")
-	vAssert(main.udpSet && main.udp == udp && main.ipv6Set && main.ipv6 == ipv6, "the UDP counter lands in the UDP slot and the IPv6 counter in the IPv6 slot")
+	vAssert(vC10cfgSlot(main.udpSet, main.udp, udp) && vC10cfgSlot(main.ipv6Set, main.ipv6, ipv6), "the UDP counter lands in the UDP slot and the IPv6 counter in the IPv6 slot")
 	vAssert(!main.rdOnly, "the node's own swarm updates the black-hole state (not read-only)")
 
 	// the AutoNATv2 dial-back host: capture the configuration it is built from, then build its swarm
@@ -167,6 +175,6 @@ func VerifC10dSwarmWiring() {
 	vAssert(err == errC10cfgStop && d.built == 1, "the dial-back swarm is constructed")
 	vAssert(d.gater == gater && d.gaterSet == (gater != nil), "the dial-back swarm consults the same connection gater")
 	vAssert(d.rcmgr == rcmgr, "the dial-back swarm is charged to the same resource manager")
-	vAssert(d.udpSet && d.udp == udp && d.ipv6Set && d.ipv6 == ipv6, "the dial-back swarm judges UDP addresses by the UDP counter and IPv6 addresses by the IPv6 counter")
+	vAssert(vC10cfgSlot(d.udpSet, d.udp, udp) && vC10cfgSlot(d.ipv6Set, d.ipv6, ipv6), "the dial-back swarm judges UDP addresses by the UDP counter and IPv6 addresses by the IPv6 counter")
 	vAssert(d.rdOnly, "the dial-back swarm reads the black-hole state without updating it")
 }
